@@ -131,20 +131,25 @@ var c14fFwpReported int
 func (e *c14fEnv) line() string { return strings.Join(e.ops, " ; ") }
 
 // fail records an oracle failure. In the cases whose command processor ignores its protocol only
-// the loss of records after a flush request that was executed while the unit was paused (open
-// finding C14-flush-while-paused) is reported; everything else is counted, not judged: the
-// statements are about a command processor that follows the protocol.
+// the statements that hold for EVERY event sequence are judged (theorem bookkeeping_any_run, since
+// the repair of finding C14-flush-while-paused): no record is lost (a record created is in a list
+// or was answered) and the counters count the records whose last answer is missing. A loss after a
+// flush request that was executed while the unit was paused keeps the signature of the repaired
+// finding. Everything else is counted, not judged: those statements are about a command processor
+// that follows the protocol.
 func (e *c14fEnv) fail(sig, format string, a ...interface{}) {
 	if !e.proto {
-		if e.fwp && sig == "C14.flush.request-lost" {
-			// the open finding: a few reproductions per run are enough (the failure list is bounded)
-			if c14fFwpReported < 40 {
+		switch {
+		case e.fwp && sig == "C14.flush.request-lost":
+			if c14fFwpReported < 40 { // the failure list is bounded
 				c14fFwpReported++
 				e.r.Failf(sig+".flush-while-paused", e.line(), format, a...)
 			} else {
 				e.r.Count("flush:no-protocol:" + sig + ".flush-while-paused")
 			}
-		} else {
+		case sig == "C14.flush.request-lost" || sig == "C14.flush.counter-mismatch":
+			e.r.Failf(sig+".no-protocol", e.line(), format, a...)
+		default:
 			e.r.Count("flush:no-protocol:" + sig)
 		}
 		return
@@ -1305,7 +1310,8 @@ func c14fReference(r *Run, nw int, issues []c14fIssue) string {
 	return e.regs()
 }
 
-// c14fKnown replays the event sequence of the open finding C14-flush-while-paused on every run.
+// c14fKnown replays the event sequence of the repaired finding C14-flush-while-paused on every run
+// (two flush requests without a restart in between: the records saved by the first must survive).
 func c14fKnown(r *Run) {
 	p := c14fPlan{nw: 1, proto: false}
 	e := c14fNewEnv(r, 1, 0, [4]int{}, false)
